@@ -9,6 +9,7 @@ if [ ! -d "$wt" ]; then git -C /repo worktree add --detach "$wt" HEAD -q && made
 (cd "$wt" && git checkout -q -- . && git checkout -q --detach "$(git -C /repo rev-parse HEAD)")
 for d in /verif/seeded/*/; do
   id=$(basename "$d")
+  [ -f "$d/meta.json" ] || continue
   prop=$(python3 -c "import json;print(json.load(open('$d/meta.json'))['property'])")
   (cd "$wt" && git checkout -q -- . && git clean -fdq)
   if ! (cd "$wt" && git apply "$d/patch.diff" 2>/dev/null); then echo "$id $prop PATCH-DOES-NOT-APPLY"; continue; fi
